@@ -68,11 +68,11 @@ structure Scenario where
   deriving Repr, DecidableEq
 
 /-- the event log. `app` = this application serves HTTP on its port, `met` = the metrics port
-    accepts connections — both probed from inside the hook. -/
+    answers, `frozen` = `Router.Frozen()` — all probed from inside the hook. -/
 inductive Ev where
-  | startIn (i : Nat) (app met : Bool)
+  | startIn (i : Nat) (app met frozen : Bool)
   | startOut (i : Nat)
-  | ready (i : Nat) (app met : Bool)
+  | ready (i : Nat) (app met frozen : Bool)
   | reloadIn (r i : Nat)
   | reloadOut (r i : Nat)
   /-- handler of request `k` entered -/
